@@ -43,6 +43,7 @@ func init() {
 			{ID: "C15.R24", Text: "a failed sequence-number query is an error: AsyncOp.Wait reports this operation's own outcome — err≠nil → err, else select{ctx.Done→Cancel, signal}, ctx.Err() — on a record that is not shared with another operation (same rule as C20.R1)", Run: c20r1},
 			{ID: "C15.R25", Text: "a checkpoint beyond the bucket's high sequence number reaches the guard that refuses it: the file backend returns what the file holds, whatever bucket id a document carries (same rule as C02.R15)", Run: fileLoadExact},
 			{ID: "C15.R26", Text: "error discipline, module-wide: of every call that hands back an error, the failure reaches whoever asked (returned, panicked, sent, handed to a continuation, wrapped and then one of these — or a panic / error return that runs only where it is non-nil); the sites where it does not are the ones confirmed by reading (frozen table: package, callee, count, reason)", Run: errorDiscipline},
+			{ID: "C15.R27", Text: "the checkpoint-ahead guard compares with the current answer of the server: no caching, retrying or limiting layer in front of a collaborator that is not a proven pass-through (same rules as C20.R19 and C20.R20)", Run: func(c *Ctx, id string) { decoratorsTransparent()(c, id); noNewLayers(c, id) }},
 			{ID: "C15.R6", Text: "bounded reopen then fail-stop (same rule as C12.R3)", Run: c12r3},
 		},
 	})
@@ -58,7 +59,9 @@ func c15r1(c *Ctx, id string) {
 			cl := ls.closure
 			vb, doc := cl.Params[0].Name(), cl.Params[1].Name()
 			ds := doc + ".Checkpoint.SeqNo"
-			h := &Harness{Fn: cl, Groups: []Group{{Atoms: []string{ds, "high"}, Unsigned: true}, {Atoms: []string{vb}, Unsigned: true}}, Quiet: quietLog,
+			// "reported": the sequence-number answer has an entry for this vBucket; when it has none the map lookup yields
+			// the zero value, so any stored position above 0 is ahead of what the server is known to have reached
+			h := &Harness{Fn: cl, Groups: []Group{{Atoms: []string{ds, "high", "#0"}, Unsigned: true}, {Atoms: []string{vb}, Unsigned: true}}, Bools: []string{"reported"}, Quiet: quietLog,
 				Oracle: func(st *State, name string, args []AV, res *types.Tuple) ([]AV, bool) {
 					if strings.HasSuffix(name, ".Load") && len(args) == 2 {
 						if avString(args[1]) != vb {
@@ -67,11 +70,18 @@ func c15r1(c *Ctx, id string) {
 						if !strings.Contains(strings.ToLower(name), "seqno") {
 							return []AV{avOpaque{"high seqNo taken from " + name}, avBool{true}}, true
 						}
+						if !st.B("reported") {
+							return []AV{avInt{conc: 0}, avBool{false}}, true
+						}
 						return []AV{avInt{atom: "high"}, avBool{true}}, true
 					}
 					return nil, false
 				}}
 			c.oae(id, "ahead-guard@"+fname(cl), cl.Pos(), h, func(st *State, out *Outcome) string {
+				high := "high"
+				if !st.B("reported") {
+					high = "#0"
+				}
 				stores := 0
 				for _, e := range out.Trace {
 					if strings.HasSuffix(e.Name, ".Store") && len(e.Args) == 3 {
@@ -81,8 +91,11 @@ func c15r1(c *Ctx, id string) {
 						}
 					}
 				}
-				if st.Lt("high", ds) {
+				if st.Lt(high, ds) {
 					if !out.Panicked {
+						if !st.B("reported") {
+							return "a stored position is accepted for a vBucket the sequence-number answer does not contain: nothing shows the server has reached it"
+						}
 						return "a checkpoint beyond the vBucket's high seqNo is accepted (bucket flushed/recreated): the stream would be requested from a position the server has not reached"
 					}
 					if stores != 0 {
